@@ -96,6 +96,12 @@ fn cfgs() -> Vec<PairCfg> {
     c.client.name = "cert10k".into();
     c.cert_len = 10_000;
     v.push(c);
+    // the server advertises a preferred address: one more connection ID per connection, issued in the
+    // transport parameters
+    let mut c = cfg_by_name("default");
+    c.client.name = "preferred-addr".into();
+    c.preferred_address = true;
+    v.push(c);
     // a resumed session: the ticket remembers a server that allowed 500 ms of silence; the server the
     // client reaches now allows 3 s (the client itself 5 s): 3 s is what counts
     let mut c = cfg_by_name("default");
@@ -433,6 +439,28 @@ fn run_case(base: Instant, c: &Case, dump: bool) -> Out {
                     if let crate::sim::Routed::Conn(ch) = r {
                         v.push(("stale-cid-routes".into(), format!("a datagram of the drained connection was routed to connection handle {}", ch.0)));
                         break;
+                    }
+                }
+                // every connection ID either endpoint's generator ever produced (whether or not it
+                // was put on the wire in a frame: the preferred-address CID travels in the transport
+                // parameters) is forgotten too: a short-header datagram addressed to it reaches nobody
+                'cids: for target in [SERVER, CLIENT] {
+                    let cl = p.w.nodes[target].cid_len;
+                    if cl == 0 {
+                        continue;
+                    }
+                    let (src, dst) = (p.w.nodes[1 - target].addr, p.w.nodes[target].addr);
+                    for n in 0..24u64 {
+                        let mut g = crate::sim::CounterCid { len: cl, next: n, tag: p.w.nodes[target].seed, lifetime: None };
+                        let cid = proto::ConnectionIdGenerator::generate_cid(&mut g);
+                        let mut d = vec![0x43u8];
+                        d.extend_from_slice(&cid);
+                        d.extend((0..30).map(|i| (i * 11 + 3) as u8));
+                        let r = p.w.deliver(crate::sim::Flight { at: p.w.t, seq: 0, idx: u64::MAX, src, dst, ecn: None, data: d, injected: true });
+                        if let crate::sim::Routed::Conn(ch) = r {
+                            v.push(("forgotten-connection-id-routes".into(), format!("after both connections drained, a datagram addressed to connection ID {:02x?} (the {n}-th this endpoint generated) was handed to connection handle {} at node{target}", &cid[..], ch.0)));
+                            break 'cids;
+                        }
                     }
                 }
                 // ... and neither may anything that looks like a stateless reset for it: every reset
